@@ -90,8 +90,12 @@ def deref_members(f):
             continue
         tested = False
         for a_ in n.ancestors():
-            if a_.k == "IfStmt":
+            ct = None
+            if a_.k in ("IfStmt", "WhileStmt", "ConditionalOperator"):
                 ct = [x for x in a_.kids if x is not None][0]
+            elif a_.k == "ForStmt":
+                ct = a_.kids[2]
+            if ct is not None and not (ct.id == n.id or ct.is_ancestor_of(n)):
                 names = {m.member for m in ct.walk() if m.k == "MemberExpr"} | \
                         {alias.get(m.refdecl) for m in ct.walk() if m.k == "DeclRefExpr"}
                 if M in names:
